@@ -54,6 +54,11 @@ Step(s0, e, ln) ==
                             !.drift = IF s0.impOK /\ ~same THEN s0.drift \cup {<<s0.case, ln, "read size / result">>} ELSE s0.drift,
                             !.viol = s0.viol \cup Bad(s0, ln, fs2.bad \ before, "poll")]
     [] e.ev = "fend" -> [s0 EXCEPT !.hasF = FALSE]
+    [] e.ev = "fconc" ->
+         \* streams over clones of one entity, polled concurrently on several threads (logical facts
+         \* only: every chunk was compared with the file content at its offset)
+         [s0 EXCEPT !.viol = s0.viol \cup Bad(s0, ln, IF e.bad_chunks > 0 \/ e.short_or_failed > 0 THEN Enforce \cap {"C18"} ELSE {},
+                                              "concurrent streams over one ChunkedReadFile deliver wrong bytes")]
     [] e.ev = "fecho" ->
          \* C14 over a real file (strong ETag, sub-second mtime in the past): served Last-Modified is
          \* the mtime truncated to the second, and echoing validators gives the cache-friendly answer
